@@ -140,6 +140,47 @@ Proof.
   apply in_flat_map in H as ([n c] & _ & Hr). destruct (step_head deep n c r Hr) as [q ->]. discriminate.
 Qed.
 
+(** * No object root the walk yields lies inside another object *)
+Lemma lookup1_filter_ext_eq (es : entries) n :
+  n <> EXT -> lookup1 (filter (fun e => negb (bytes_eqb (fst e) EXT)) es) n = lookup1 es n.
+Proof.
+  intros Hn. induction es as [|[m d] es IH]; [reflexivity|]. cbn [filter fst lookup1 snd].
+  destruct (bytes_eqb m EXT) eqn:E; cbn [negb].
+  - apply bytes_eqb_eq in E. subst m. destruct (bytes_eqb EXT n) eqn:E2; [|exact IH].
+    apply bytes_eqb_eq in E2. congruence.
+  - cbn [lookup1 fst snd]. destruct (bytes_eqb m n); [reflexivity| exact IH].
+Qed.
+
+Lemma walk_not_nested deep t :
+  names_unique t = true -> forall p ces, In (p, ces) (walk_gen deep t) -> nested_in_object t p = false.
+Proof.
+  induction t as [c|es IH] using tree_ind2; intros U p ces H; [destruct H|].
+  rewrite walk_gen_dir in H. apply in_flat_map in H as ([n c] & Hin & Hr).
+  destruct (names_unique_dir es U) as [U1 U2].
+  apply step_in in Hr as (ces' & -> & _ & [[_ E]|[Hroot (r' & Hr' & E)]]).
+  - injection E as -> ->. reflexivity.
+  - destruct r' as [q ces'']. unfold push in E. cbn [fst snd] in E. injection E as -> ->.
+    pose proof (walk_gen_paths_nonempty deep _ _ Hr') as Hq. cbn [fst] in Hq.
+    destruct q as [|n2 q]; [congruence|].
+    cbn [nested_in_object]. rewrite (lookup1_unique es n _ U1 Hin), Hroot. cbn [orb].
+    rewrite Forall_forall in IH. apply (IH _ Hin (U2 _ Hin) _ _ Hr').
+Qed.
+
+Lemma nested_drop_top t n q :
+  n <> EXT -> nested_in_object (drop_top_ext t) (n :: q) = nested_in_object t (n :: q).
+Proof.
+  intros Hn. destruct t as [c|es]; [reflexivity|]. destruct q as [|n2 q]; [reflexivity|].
+  cbn [drop_top_ext nested_in_object]. now rewrite (lookup1_filter_ext_eq es n Hn).
+Qed.
+
+Lemma spec_root_not_nested t p ces :
+  names_unique t = true -> In (p, ces) (spec_roots t) -> nested_in_object t p = false.
+Proof.
+  intros U H. destruct (spec_roots_head t p ces H) as (n & q & -> & Hn).
+  rewrite <- (nested_drop_top t n q Hn).
+  apply (walk_not_nested false (drop_top_ext t) (names_unique_drop t U) _ _ H).
+Qed.
+
 (** the root of an object answers for that object *)
 Lemma get_by_path_root t p ces i :
   names_unique t = true -> In (p, ces) (spec_roots t) -> In i (root_id (p, ces)) ->
@@ -149,7 +190,8 @@ Proof.
   pose proof (walk_gen_roots false _ _ Hr) as R. cbn [snd] in R.
   pose proof (root_id_parse _ _ Hi) as Q. cbn [snd] in Q.
   unfold get_inventory_by_path, object_like. destruct p as [|n q]; [congruence|].
-  rewrite (lookup_spec t _ ces U Hr), R. cbn [orb]. now rewrite Q, bytes_eqb_refl.
+  rewrite (spec_root_not_nested t _ ces U Hr), (lookup_spec t _ ces U Hr), R. cbn [orb].
+  now rewrite Q, bytes_eqb_refl.
 Qed.
 
 Lemma get_by_path_committed m t i :
@@ -163,15 +205,14 @@ Qed.
 (** whatever is at the path, if it does not look like an object the answer is NotFound
     (nothing, a regular file, a directory without declaration and inventory) *)
 Lemma get_by_path_not_object t i p : object_like t p = false -> get_inventory_by_path t i p = NotFound.
-Proof. intros H. unfold get_inventory_by_path. destruct p; [reflexivity|]. now rewrite H. Qed.
-
-Lemma get_inside_object t i p :
-  nested_in_object t p = true -> c19_layout_path_inside_object t p = false ->
-  get_inventory_by_path t i p = NotFound.
 Proof.
-  unfold c19_layout_path_inside_object. intros N K. rewrite N in K. cbn [andb] in K.
-  apply get_by_path_not_object, K.
+  intros H. unfold get_inventory_by_path. destruct p; [reflexivity|]. rewrite H.
+  now destruct (nested_in_object t (n :: p)).
 Qed.
+
+(** nothing inside another object is ever taken for an object *)
+Lemma get_by_path_nested t i p : nested_in_object t p = true -> get_inventory_by_path t i p = NotFound.
+Proof. intros H. unfold get_inventory_by_path. destruct p; [reflexivity|]. now rewrite H. Qed.
 
 Lemma object_like_free t p : lookup_path t p = None -> object_like t p = false.
 Proof. intros H. unfold object_like. now rewrite H. Qed.
